@@ -34,7 +34,7 @@ def build_cases(ctx, vh, model, nsets=40, real_frac=0.25, volume_damage=False):
         if getattr(ps, "rowswap", False):
             p = ps.paths["rowswap.bin"]
             d = base[p]
-            for trip in ((1, 130, 131), (1, 130, 135)):
+            for trip in ((1, 129, 130), (1, 129, 135)):
                 nd = bytearray(d)
                 for sl in trip:
                     nd[4 * sl] ^= 0x55
